@@ -3,8 +3,11 @@ package main
 // C12 — scoping and caller data: R-C12-CALLER, CHILD, BODY, VALID, ORDER.
 
 import (
+	"go/constant"
 	"go/token"
 	"go/types"
+	"regexp"
+	"strings"
 
 	"golang.org/x/tools/go/ssa"
 )
@@ -22,6 +25,8 @@ func checkC12(p *Prog, r *Report) {
 	ruleC12Body(p, a, r)
 	ruleArgScope(p, a, r, "R-C12-ARGSCOPE")
 	ruleC12Valid(p, a, r)
+	ruleC12Identifier(p, a, r)
+	ruleC12ForBind(p, a, r)
 	ruleCtxMergeOrder(p, a, r, "R-C12-ORDER")
 	r.Begin("R-C12-MACRO-ANCHORS", "macro body executor found by role", 1)
 	if ma := resolveMacroAnchors(p, a, r); ma != nil {
@@ -324,9 +329,7 @@ func ruleC12Valid(p *Prog, a *Anchors, r *Report) {
 	for _, site := range callsTo(builder, newCtx) {
 		// skip edges that say "no caller context" or "merged map empty"
 		skip := func(c ssa.Value, pol bool) bool {
-			if x, eq, ok := condIsNilTest(c); ok && x == ctxParam && eq == pol {
-				return true // context == nil
-			}
+			// (a nil caller context is no excuse: the set's Globals have been merged by then and need the same checks)
 			if b, ok := c.(*ssa.BinOp); ok {
 				// len(m) > 0 false / len(m) == 0 true
 				if isLenCall(b.X) {
@@ -349,9 +352,9 @@ func ruleC12Valid(p *Prog, a *Anchors, r *Report) {
 			return false
 		})
 		if len(checks) > 0 && ok {
-			r.OK(name+":validate-before-run", p.InstrPos(site.(ssa.Instruction)), "every path with a non-empty caller context passes checkForValidIdentifiers before the execution context is built")
+			r.OK(name+":validate-before-run", p.InstrPos(site.(ssa.Instruction)), "every path with a non-empty merged context (caller context and Globals) passes checkForValidIdentifiers before the execution context is built")
 		} else {
-			r.Bad(name+":validate-before-run", p.InstrPos(site.(ssa.Instruction)), "the execution context can be built from a non-empty caller context without checkForValidIdentifiers: invalid keys are accepted")
+			r.Bad(name+":validate-before-run", p.InstrPos(site.(ssa.Instruction)), "the execution context can be built from a non-empty merged context without checkForValidIdentifiers (e.g. when the caller passes a nil Context but the set has Globals): invalid keys are accepted")
 		}
 		// its error edge returns
 		for _, c := range checks {
@@ -463,6 +466,151 @@ func ruleC12Valid(p *Prog, a *Anchors, r *Report) {
 	} else {
 		r.Bad(p.FuncName(check)+":mismatch-is-error", p.Pos(check.Pos()), "the identifier validator does not return an error on the mismatch edge")
 	}
+}
+
+// ruleC12Identifier: the validation pattern accepts exactly what the lexer emits as an identifier. Both are constants of
+// the source (the regular expression, the two character-class strings, the keyword list); the pattern is evaluated on
+// every string up to length 3 over {a, Z, _, 0, 9, -, space, é} and on every keyword.
+func ruleC12Identifier(p *Prog, a *Anchors, r *Report) {
+	r.Begin("R-C12-IDENT", "the context-key validation accepts exactly the lexer's identifiers: letters, digits and '_' with at least one non-digit, and no keyword", 2)
+	check := p.Method("Context", "checkForValidIdentifiers")
+	if check == nil {
+		r.Unk("anchor", "-", "anchor unresolved: checkForValidIdentifiers")
+		return
+	}
+	// the pattern: the regexp global matched in the check function
+	pat := ""
+	for _, b := range check.Blocks {
+		for _, in := range b.Instrs {
+			c, ok := in.(*ssa.Call)
+			if !ok || c.Common().StaticCallee() == nil || p.extName(c.Common().StaticCallee()) != "(*regexp.Regexp).MatchString" {
+				continue
+			}
+			if u, ok := c.Common().Args[0].(*ssa.UnOp); ok {
+				if g, ok := u.X.(*ssa.Global); ok {
+					if ic := globalInitCall(p, g); ic != nil {
+						pat, _ = constString(ic.Common().Args[0])
+					}
+				}
+			}
+		}
+	}
+	if pat == "" {
+		r.Unk("pattern", p.Pos(check.Pos()), "the validation does not match a constant regular expression")
+		return
+	}
+	re, err := regexp.Compile(pat)
+	if err != nil {
+		r.Bad("pattern", p.Pos(check.Pos()), "pattern %q does not compile", pat)
+		return
+	}
+	// the lexer's tables
+	constOf := func(name string) string {
+		if c, ok := p.Pkg.Types.Scope().Lookup(name).(*types.Const); ok && c.Val().Kind() == constant.String {
+			return constant.StringVal(c.Val())
+		}
+		// a package variable assigned exactly once, a string constant
+		out, n := "", 0
+		if g, ok := p.SPkg.Members[name].(*ssa.Global); ok {
+			p.EachInstr(func(f *ssa.Function, in ssa.Instruction) {
+				if st, isSt := in.(*ssa.Store); isSt && st.Addr == ssa.Value(g) {
+					n++
+					out, _ = constString(st.Val)
+				}
+			})
+		}
+		if n != 1 {
+			return ""
+		}
+		return out
+	}
+	letters, withDigits := constOf("tokenIdentifierChars"), constOf("tokenIdentifierCharsWithDigits")
+	var keywords []string
+	if g, ok := p.SPkg.Members["TokenKeywords"].(*ssa.Global); ok {
+		p.EachInstr(func(f *ssa.Function, in ssa.Instruction) {
+			if st, isSt := in.(*ssa.Store); isSt && st.Addr == ssa.Value(g) {
+				if ks, okk := constStringSlice(st.Val); okk {
+					keywords = ks
+				}
+			}
+		})
+	}
+	if letters == "" || withDigits == "" || len(keywords) == 0 {
+		r.Unk("lexer-tables", "-", "anchor unresolved: tokenIdentifierChars / tokenIdentifierCharsWithDigits / TokenKeywords (letters %d, with digits %d, keywords %d)", len(letters), len(withDigits), len(keywords))
+		return
+	}
+	// does the check also consult the keyword list?
+	usesKeywords := false
+	for _, f := range clusterOf(p, check, 1) {
+		for _, b := range f.Blocks {
+			for _, in := range b.Instrs {
+				if u, ok := in.(*ssa.UnOp); ok {
+					if g, ok := u.X.(*ssa.Global); ok && g.Name() == "TokenKeywords" {
+						usesKeywords = true
+					}
+				}
+			}
+		}
+	}
+	isIdent := func(s string) bool {
+		if s == "" {
+			return false
+		}
+		nonDigit := false
+		for _, ch := range s {
+			if !strings.ContainsRune(withDigits, ch) {
+				return false
+			}
+			if strings.ContainsRune(letters, ch) {
+				nonDigit = true
+			}
+		}
+		if !nonDigit {
+			return false
+		}
+		for _, kw := range keywords {
+			if kw == s {
+				return false
+			}
+		}
+		return true
+	}
+	accepts := func(s string) bool {
+		if !re.MatchString(s) {
+			return false
+		}
+		if usesKeywords {
+			for _, kw := range keywords {
+				if kw == s {
+					return false
+				}
+			}
+		}
+		return true
+	}
+	alphabet := []string{"a", "Z", "_", "0", "9", "-", " ", "é"}
+	var cands []string
+	cands = append(cands, "")
+	var gen func(prefix string, left int)
+	gen = func(prefix string, left int) {
+		if left == 0 {
+			return
+		}
+		for _, ch := range alphabet {
+			cands = append(cands, prefix+ch)
+			gen(prefix+ch, left-1)
+		}
+	}
+	gen("", 3)
+	cands = append(cands, keywords...)
+	for _, s := range cands {
+		if accepts(s) != isIdent(s) {
+			r.Bad("agreement", p.Pos(check.Pos()), "context key %q: the validation (pattern %q, keyword list consulted: %v) says %v, the lexer's identifier rule says %v — a key the validation accepts but no template can name, or the reverse", s, pat, usesKeywords, accepts(s), isIdent(s))
+			return
+		}
+	}
+	r.OK("agreement", p.Pos(check.Pos()), "pattern %q (+ keyword list) agrees with the lexer's identifier rule on %d candidate keys", pat, len(cands))
+	r.OK("tables", "-", "lexer tables read from the source: %d letters, %d identifier characters, %d keywords", len(letters), len(withDigits), len(keywords))
 }
 
 func isLenCall(v ssa.Value) bool {
@@ -589,4 +737,86 @@ func ruleCtxMergeOrder(p *Prog, a *Anchors, r *Report, rule string) {
 	} else {
 		r.Bad("resolve:order", p.InstrPos(pub), "Public lookup is not restricted to the miss edge of the Private lookup (same key: %v)", sameKey)
 	}
+}
+
+// ruleC12ForBind: the for tag binds its declared loop variables, all of them and nothing else, on every iteration:
+// a name taken from a node field is bound either unconditionally or under a test of that NAME (is a second variable
+// declared?) — never depending on whether the iteration happens to supply a value, and never without such a test when
+// the parser leaves the field empty for loops with one variable.
+func ruleC12ForBind(p *Prog, a *Anchors, r *Report) {
+	r.Begin("R-C12-FORBIND", "for binds each declared loop variable on every iteration and never binds an undeclared (empty) name: the binding of a name depends at most on that name being declared", 2)
+	f := p.Func("(*tagForNode).Execute")
+	if f == nil {
+		r.Unk("anchor", "-", "anchor unresolved: (*tagForNode).Execute")
+		return
+	}
+	// which name fields can stay empty: fields of tagForNode of type string that the parser stores conditionally
+	parser := a.TagParsers["for"]
+	for _, g := range withClosures(f) {
+		for _, b := range g.Blocks {
+			for _, in := range b.Instrs {
+				mu, ok := in.(*ssa.MapUpdate)
+				if !ok || !loadsField(mu.Map, "ExecutionContext", "Private") {
+					continue
+				}
+				_, n, fld := fieldLoadBase(stripConv(mu.Key))
+				if n == nil || n.Obj().Name() != "tagForNode" {
+					continue
+				}
+				key := "(*tagForNode).Execute:bind " + fld
+				// conditions guarding the update (within its function): any If that decides whether it runs
+				dependsOnValue, testsName := false, false
+				for _, cb := range g.Blocks {
+					iff, isIf := cb.Instrs[len(cb.Instrs)-1].(*ssa.If)
+					if !isIf || !cb.Dominates(b) || cb == b {
+						continue
+					}
+					// does this branch decide? (one successor cannot reach the update)
+					r0, r1 := ReachableBlocks(cb.Succs[0])[b] || cb.Succs[0] == b, ReachableBlocks(cb.Succs[1])[b] || cb.Succs[1] == b
+					if r0 && r1 {
+						continue
+					}
+					c, _ := normCond(iff.Cond, true)
+					if bo, isBo := c.(*ssa.BinOp); isBo {
+						if loadsField(bo.X, "tagForNode", fld) || loadsField(bo.Y, "tagForNode", fld) {
+							testsName = true
+							continue
+						}
+					}
+					dependsOnValue = true
+				}
+				mayBeEmpty := parser != nil && fieldStoredConditionally(p, parser, "tagForNode", fld)
+				switch {
+				case dependsOnValue:
+					r.Bad(key, p.InstrPos(in), "whether the loop variable %s is bound depends on a condition other than the name being declared (e.g. on the iteration supplying a value): over a list the declared second variable stays unbound and an outer name shows through", fld)
+				case mayBeEmpty && !testsName:
+					r.Bad(key, p.InstrPos(in), "the name in tagForNode.%s is empty when the loop declares one variable, and it is bound without a test: the empty name lands in the context (and breaks includes inside the loop)", fld)
+				default:
+					r.OK(key, p.InstrPos(in), "bound on every iteration%s", map[bool]string{true: " when declared", false: ""}[testsName])
+				}
+			}
+		}
+	}
+}
+
+// fieldStoredConditionally: in f, every store to T.field sits behind a branch (is not executed on every path to the
+// successful return), i.e. the field can keep its zero value.
+func fieldStoredConditionally(p *Prog, f *ssa.Function, typ, field string) bool {
+	found := false
+	for _, b := range f.Blocks {
+		for _, in := range b.Instrs {
+			st, ok := in.(*ssa.Store)
+			if !ok || !isFieldAddrOf(st.Addr, typ, field) {
+				continue
+			}
+			found = true
+			for _, ret := range successReturns(f) {
+				if MustPass(ret, func(x ssa.Instruction) bool { return x == ssa.Instruction(st) }) {
+					return false
+				}
+			}
+		}
+	}
+	_ = found
+	return true // no store on every successful path: the field can stay empty
 }
